@@ -71,6 +71,7 @@ struct DaemonScenario : Scenario {
   std::vector<Delivery> inflight; int serial = 0;
   size_t tick_pos = std::string::npos, tick_end = 0; int tick_cnt = 0;
   bool catchall = false;         // control/virtualdomains also has a catch-all entry and an exception
+  int held_ticks = 0;
   bool hupedit = false, config_b = false;   // C10: every HUP is preceded by an edit of locals/virtualdomains (far.example becomes local, virt2.example virtual) / back
   bool expect_leftovers = false; // failed or hung injections legitimately leave S2/S3 files that are collected after 36 hours
   bool mark_check_off = false;   // after an injected failure inside the daemon the report/mark alignment is unknown until it restarts
@@ -365,7 +366,8 @@ struct DaemonScenario : Scenario {
   void after_step(World &w, Proc &p, const Step &st) override {
     if (st.op == VK_WRITE && (st.tag == TAG_LCMD || st.tag == TAG_RCMD) && st.ret > 0) drain_commands(w, st.tag == TAG_LCMD ? 0 : 1);
     if (st.injected && st.err && p.vpid == sendpid) { markfifo[0].clear(); markfifo[1].clear(); mark_check_off = true; }   // a mark may not get written: alignment is lost
-    if (st.injected && st.err) { faults_seen++; w.counters["faults_injected"]++; history += " FAULT(" + opname(st.op) + " " + st.path + ")"; }
+    if (st.injected && st.err) { faults_seen++; w.counters["faults_injected"]++; history += " FAULT(" + opname(st.op) + " " + st.path + ")";
+      if (p.vpid == cleanpid) expect_leftovers = true; }   // a file the cleaner could not remove is a documented leftover: collected once it is 36 hours old
     if (w.aborted) return;
     bool fsop = (st.op == VK_LINK || st.op == VK_UNLINK || st.op == VK_RENAME || st.op == VK_OPEN || st.op == VK_KILL);
     if (st.op == VK_LINK && st.ret == 0 && st.path2.compare(0, 5, "todo/") == 0) { accept(w, atol(st.path2.c_str() + 5), p.uid, std::find(own_injectors.begin(), own_injectors.end(), p.vpid) == own_injectors.end()); if (M("C01")) check_commit(w, atol(st.path2.c_str() + 5)); }
@@ -518,7 +520,7 @@ struct DaemonScenario : Scenario {
     }
   }
   virtual bool crash_points_enabled(World &, Proc &p) { return p.vpid == sendpid || p.vpid == cleanpid; }
-  virtual bool fault_points_enabled(World &, Proc &p) { return p.vpid == sendpid; }
+  virtual bool fault_points_enabled(World &, Proc &p) { return p.vpid == sendpid || p.vpid == cleanpid; }   // the cleaner's unlinks can fail too: it then answers '!' and the daemon must not go on as if the file were gone
   void after_machine_crash(World &w) override {
     machine_crashed = true; w.counters["machine_crashes"]++; history += " CRASH";
     sendpid = cleanpid = 0; inflight.clear(); injectors.clear(); cmd[0].reset(); cmd[1].reset(); rep[0].reset(); rep[1].reset();
@@ -588,11 +590,12 @@ struct DaemonScenario : Scenario {
       struct Ev { size_t idx; char v; };
       std::vector<Ev> evs; std::string verd = cfg.get("verdicts", "KZDX");
       size_t lim = std::min<size_t>(inflight.size(), cfg.geti("reorder", 3));
-      for (size_t i = 0; i < lim; i++) for (char v : verd) evs.push_back({i, v});
+      for (size_t i = 0; i < lim; i++) for (char v : verd) { if (v == 'T' && i > 0) continue; evs.push_back({i, v}); }
       uint8_t kinds[VK_MAXALT]; int n = 0;
       for (auto &e : evs) { (void) e; kinds[n] = n == 0 ? 0 : BK_ENV; n++; }
       int sig_base = n;
-      if (cfg.geti("signals", 1)) { kinds[n++] = BK_ENV; kinds[n++] = BK_ENV; kinds[n++] = BK_ENV; }   // TERM, ALRM, HUP
+      if (cfg.geti("signals", 1) == 2) kinds[n++] = BK_ENV;   // TERM only
+      else if (cfg.geti("signals", 1)) { kinds[n++] = BK_ENV; kinds[n++] = BK_ENV; kinds[n++] = BK_ENV; }   // TERM, ALRM, HUP
       int inj_alt = -1;
       if (inject_mode == "event" && !tosend.empty() && injectors.empty()) { inj_alt = n; kinds[n++] = BK_ENV; }   // a new message arrives now
       int c = w.ex->choose(kinds, n);
@@ -605,6 +608,12 @@ struct DaemonScenario : Scenario {
         Delivery d = inflight[e.idx]; int conc = d.chan == 0 ? conc_l : conc_r, dn = e.v == 'g' ? conc : 255;
         if (e.v == 'u') { for (int x = 0; x < conc; x++) { bool used = false; for (auto &f : inflight) if (f.chan == d.chan && f.delnum == x) used = true; if (!used) { dn = x; break; } } }
         std::string g; g.push_back((char) dn); g += "Kstray report\n"; g.push_back('\0'); rep[d.chan]->buf += g; w.counters["reports_stray"]++; history += std::string(" stray(") + std::to_string(dn) + ")"; return true;
+      }
+      if (e.v == 'T') {
+        // a slow delivery: nothing is reported, time passes until the daemon's own next deadline (retry timers, the 123-second
+        // retry of messages it could not stat, the todo rescan) while the attempt is still outstanding
+        long dl = w.next_deadline(); if (dl < 0 || ++held_ticks > 6) { send_report(w, e.idx, 'K', "ok\n"); return true; }
+        w.advance_clock(dl); w.counters["ticks_with_deliveries_in_flight"]++; history += " hold(->" + std::to_string(w.k.clock % 100000) + ")"; return true;
       }
       if (e.v == 'E') {
         // the spawner of this delivery's channel dies: end-of-file on the report pipe, the command pipe loses its reader.  Its
@@ -626,7 +635,7 @@ struct DaemonScenario : Scenario {
     if (clock_frozen) return false;
     // nothing in flight, work remains: let time pass to the daemon's own deadline (default) or send a signal
     {
-      uint8_t kinds[4] = {0, BK_ENV, BK_ENV, BK_ENV}; int n = cfg.geti("signals", 1) ? 4 : 1;
+      uint8_t kinds[4] = {0, BK_ENV, BK_ENV, BK_ENV}; int n = cfg.geti("signals", 1) == 2 ? 2 : cfg.geti("signals", 1) ? 4 : 1;
       int c = w.ex->choose(kinds, n);
       if (c > 0) { send_signal(w, c - 1); return true; }
     }
